@@ -14,11 +14,16 @@ def build_model(spec, initialize=True):
     """Real bioscrape Model from a spec. Parameters are named; values in spec['params']."""
     from bioscrape.types import Model
     rxns = []
+    shared = {}
     for r in spec["reactions"]:
         pd = dict(r["prop"])
         ptype = pd.pop("type")
         if ptype == "general":
             pd = {"rate": pd["rate"]}
+        # reactions with the same parameter dictionary get the same dict *object*, the way user code writes
+        # `kdeg = {"k": "d"}` once and passes it to several reactions (the library must not write into it)
+        key = (ptype, tuple(sorted((k_, str(v_)) for k_, v_ in pd.items())))
+        pd = shared.setdefault(key, pd)
         if "delay" in r and r["delay"] is not None:
             d = dict(r["delay"])
             dtype = d.pop("type")
